@@ -3,16 +3,16 @@ from propdefs.common import *
 PROP = {
     "bin": "c03",
     "coq_targets": ["theories/Isa/C03Check"],
-    "n": {"quick": 1200, "thorough": 16000},
-    "theorems": ["run_graph_straight", "tie_transfers", "addsub_imm_sim", "addsub_shift_sim", "mov_reg_sim", "mov_wide_sim", "adds_imm_sim", "adds_shift_sim", "subs_imm_sim_partial", "subs_shift_sim_partial", "subs_carry_refuted", "ldr_imm_sim", "str_imm_sim", "ldst_ord_sim", "stp_sim", "ldp_sim", "ldst_imm_sim", "ldpsw_sim", "ldst_reg_sim", "b_sim", "bl_sim", "br_sim", "blr_sim", "ret_sim", "bcond_sim", "cb_sim", "tb_sim", "addsub_shift_sim_all", "adds_shift_sim_all", "subs_shift_sim_all_partial", "addsub_ext_sim", "adds_ext_sim", "subs_ext_sim_partial", "decode_fields", "sim_all", "c03_end_to_end"],
+    "n": {"quick": 1250, "thorough": 18000},
+    "theorems": ["run_graph_straight", "tie_transfers", "addsub_imm_sim", "addsub_shift_sim", "mov_reg_sim", "mov_wide_sim", "adds_imm_sim", "adds_shift_sim", "subs_imm_sim_partial", "subs_shift_sim_partial", "subs_carry_refuted", "ldr_imm_sim", "str_imm_sim", "ldst_ord_sim", "stp_sim", "ldp_sim", "ldst_imm_sim", "ldpsw_sim", "ldst_reg_sim", "b_sim", "bl_sim", "br_sim", "blr_sim", "ret_sim", "bcond_sim", "cb_sim", "tb_sim", "addsub_shift_sim_all", "adds_shift_sim_all", "subs_shift_sim_all_partial", "addsub_ext_sim", "adds_ext_sim", "subs_ext_sim_partial", "orr_imm_sim", "nop_sim", "decode_fields", "sim_all", "c03_end_to_end"],
     "tie_name": "mirror(decode word) = IL dumped by translator::aarch64 (syntactic tie) / dumped IL runs without getting stuck",
-    "rule": "case i < 7034: entry (i * 7919 mod 7034) of the structured table of instruction words (add/sub immediate | shifted | extended register x W/X x "
-            "with/without flags x register 31 in every field x boundary immediates and amounts; ORR/MOV, MOVZ/MOVN/MOVK; every (size, opc) load/store x "
-            "unsigned-offset | unscaled | pre | post | register-offset (all 8 options x S) | ordered | literal | pairs (all four modes, LDPSW) with "
-            "base = transfer register coincidences; B, BL, BR, BLR, RET, B.cond x 16, CBZ/CBNZ, TBZ/TBNZ); case i >= 7034: a random word of those classes "
-            "(fields uniform, register 31 boosted).  Each word is lifted by the real translate_block (little- and big-endian translator, 6 addresses) and "
-            "compared on 2..16 sampled states (boundary values in the registers read, values at carry/overflow boundaries relative to the immediate, "
-            "unaligned / page-crossing / top-of-address-space bases, all 16 NZCV for B.cond).  non-trivial = accepted by the lifter and in the listed classes; "
+    "rule": "cases 0..846 (every seed): fixed corpus of past regression shapes (ldp with Rt = base, adds/subs with INT_MIN operands, loads into XZR/WZR "
+            "with write-back, cbz/tbz on W registers with a non-zero upper half) + the register-aliasing table (every form x Rd/Rn/Rm/Rt/Rt2 coincidences, "
+            "incl. the CONSTRAINED UNPREDICTABLE ones that the specification leaves Undef, x register 31 in every position); cases 847..9367: a stride "
+            "permutation of the 8521-entry structured table (all classes x W/X x flags x boundary immediates/amounts x every addressing mode; MOV bitmask "
+            "immediates; NOP/PRFM; STLUR; SIMD&FP B/H/S/D/Q loads/stores and pairs); beyond: random words of the classes, one in four a UNIFORMLY random "
+            "32-bit word. Each word is lifted by the real translate_block (LE and BE translator, 6 addresses) and compared on 2..16 sampled states. "
+            "ACCEPTANCE clause: lifter-accepts <-> (Isa/A64.decode accepts and the mirror accepts) for every word. non-trivial = accepted and specified; "
             "distinct by (word, address, endianness)",
     "trusted_base": [KERNEL, HARNESS_TB,
                      "Isa/A64.v: hand transcription of the Arm ARM (DDI 0487) pseudocode for the listed classes, EL0, no alignment/MMU faults (the oracle the property names)",
@@ -21,27 +21,29 @@ PROP = {
     "assumptions": ["data accesses that wrap around 2^64 and CONSTRAINED UNPREDICTABLE register coincidences are outside the comparison (a64step = Undef)",
                     "instruction address + 4 < 2^64"],
     "partial": [
-        "theorem [U] + syntactic tie per enumerated word (c03_end_to_end: decode w = Some i /\\ tie => run of the DUMPED IL = a64step, all states; field "
+        "theorem [U] + syntactic tie per enumerated word (c03_end_to_end: decode w = Some i /\\ non-vector /\\ tie => run of the DUMPED IL = a64step, all states; field "
         "ranges discharged by decode_fields): ADD/SUB/ADDS in the immediate, shifted-register (LSL LSR ASR ROR) and extended-register (UXTB..SXTX, #0..4) "
-        "forms incl. MOV to/from SP; MOV register (ORR alias); MOV wide / inverted wide (MOVZ/MOVN aliases); every single-register load/store "
-        "LDR/LDRB/LDRH/LDRSB/LDRSH/LDRSW/STR/STRB/STRH in all addressing modes (unsigned offset, unscaled, pre-index, post-index, register offset "
-        "UXTW/LSL/SXTW/SXTX); LDAR/LDLAR/STLR/STLLR(+B/H); LDP/STP/LDNP/STNP (32/64-bit) and LDPSW in all modes; B, BL, BR, BLR, RET, B.cond, "
-        "CBZ/CBNZ, TBZ/TBNZ",
+        "forms incl. MOV to/from SP; MOV register (ORR alias); MOV wide / inverted wide (MOVZ/MOVN aliases); MOV bitmask immediate (ORR immediate alias, "
+        "DecodeBitMasks); NOP/PRFM/PRFUM; every single-register load/store LDR/LDRB/LDRH/LDRSB/LDRSH/LDRSW/STR/STRB/STRH in all addressing modes incl. "
+        "STLUR*; LDAR/LDLAR/STLR/STLLR(+B/H); LDP/STP/LDNP/STNP (32/64-bit) and LDPSW in all modes; B, BL, BR, BLR, RET, B.cond, CBZ/CBNZ, TBZ/TBNZ",
         "partial theorem [U] (sim_c true: everything but C agrees, and c = NOT C is proved) + refutation witness subs_carry_refuted: SUBS in all three "
         "operand forms (known finding kf:subs-carry-is-borrow; fixing it needs the unedited test subs_xn to change)",
+        "specification + mirror + syntactic tie + sampled comparison incl. V0..V31, no theorem (emb does not speak about vector registers): SIMD&FP "
+        "LDR/STR/LDUR/STUR of B/H/S/D/Q registers in all addressing modes, LDP/STP/LDNP/STNP of S/D/Q",
         "forms the lifter rejects hold vacuously (sim_rejected): CMP/CMN/NEG/NEGS aliases, MOVK, non-alias MOVZ/MOVN/ORR, LDR/LDRSW literal",
-        "accepted by the lifter but outside the property's integer classes and outside Isa/A64.decode, neither theorem nor comparison: SIMD&FP register "
-        "loads/stores (ldr/str b/h/s/d/q), NOP, PRFM, STLUR*, LDAPR-class; the harness tags them cov:accepted-outside-the-listed-classes",
-        "not compared by design (a64step = Undef): CONSTRAINED UNPREDICTABLE register coincidences (write-back with base = transfer register, ldp t = t2), "
-        "accesses wrapping around 2^64; the hypotheses wf / emb / mapped / addr + 4 < 2^64 of sim",
+        "accepted by the lifter, NOT specified (counted per run in evidence extra.accepted_words_outside_the_specification and tagged "
+        "cov:accepted-outside-the-listed-classes): vector/SVE ADD and SUB (lifted as ONE wide addition: wrong lane semantics), MOV element/vector/SVE forms, "
+        "SVE prefetches (nop), ORR-immediate words with a RESERVED bitmask encoding that bad64 decodes as mov (kf:reserved-bitmask-immediate-accepted)",
+        "not compared by design (a64step = Undef): CONSTRAINED UNPREDICTABLE register coincidences (write-back with base = transfer register, ldp t = t2, "
+        "ordered accesses with (1) fields not all ones), accesses wrapping around 2^64; the hypotheses wf / emb / mapped / addr + 4 < 2^64 of sim",
     ],
-    "level_text": "36 unbounded Coq theorems (Props/C03.v), closed under the global context: for EVERY word the specification's decoder accepts "
-                  "(all listed classes, all register/immediate/shift/extend/addressing-mode fields) and every state, running the Gallina mirror of the "
-                  "AArch64 builders in the reference IL semantics yields the X0-X30/SP, NZCV, memory and next pc of a Gallina transcription of the Arm ARM "
-                  "pseudocode (sim_all; SUBS only up to the inverted carry, a known finding with a refutation witness); decode_fields discharges the "
-                  "field ranges and c03_end_to_end transfers the result to the IL dumped by the real translate_block for every enumerated word whose "
-                  "kernel-evaluated syntactic tie (mirror(decoded word) = dumped IL) holds. Independently every enumerated word is compared in the kernel "
-                  "against the specification on sampled boundary states.",
+    "level_text": "38 unbounded Coq theorems (Props/C03.v), closed under the global context: for EVERY integer-class word the specification's decoder "
+                  "accepts (all register/immediate/shift/extend/addressing-mode fields) and every state, running the Gallina mirror of the AArch64 builders "
+                  "in the reference IL semantics yields the X0-X30/SP, NZCV, memory and next pc of a Gallina transcription of the Arm ARM pseudocode "
+                  "(sim_all; SUBS only up to the inverted carry, a known finding with a refutation witness); decode_fields discharges the field ranges and "
+                  "c03_end_to_end transfers the result to the IL dumped by the real translate_block for every enumerated word whose kernel-evaluated "
+                  "syntactic tie holds. SIMD&FP loads/stores are specified, mirrored, tied and compared on sampled states (no theorem). Every run also "
+                  "checks that lifter and specification agree on WHICH words are accepted, and counts the accepted words outside the specification.",
     "level_note": "Trusted: Coq kernel + vm_compute; the transcription of the Arm ARM (Isa/A64.v); Exec/Sem.v; the harness printer. The decoder bad64 is not trusted "
                   "beyond the enumerated words: its operand presentation is re-checked against the mirror on every run.",
 }
